@@ -44,7 +44,7 @@ def main():
             env["VERIF_RUNS"] = args.runs
         if args.tests:
             t = subprocess.run(["/venv/bin/python", "-m", "pytest", "-q", "-x", "-p",
-                                "no:cacheprovider", "tests"], cwd=dst,
+                                "no:cacheprovider", "--timeout=120", "tests"], cwd=dst,
                                env=dict(env, PYTHONPATH=dst), capture_output=True, text=True)
             print("repo tests:", t.stdout.strip().splitlines()[-1] if t.stdout.strip() else t.stderr[-300:])
         caught = []
